@@ -100,6 +100,11 @@ CHECKS = {
     note="The expected text is computed in-process by the harness built from the same tree, so this check is independent of C07.",
     technique="TLC model checking (DisCli.tla) + TLC trace validation (DisCliTrace.tla) of real process runs",
     design="5 C20"),
+ "C18": dict(
+    text="Lift.tla states what the structured module must contain for a data-representation module of the supported subset: version word, capabilities in order, memory model; one type / constant entry per declaration in order with operands carried over positionally (type and constant ids replaced by the token of the referenced entry); one operation per result-producing non-phi block instruction; per function its control mask, result type token, block count, each block's terminator, and each phi's result type among the block arguments. LiftTrace validates random subset modules and, for each of the 507 result-producing opcodes the pinned tree lifts, one module carrying that opcode with positionally distinct operands.",
+    note="Only the subset the lifter handles today, as the property says; the set of liftable opcodes is pinned (spec/LiftSupported.json) so that breaking one opcode cannot hide as 'unsupported'. Float constants are not compared numerically.",
+    technique="TLC trace validation (LiftTrace.tla against Lift.tla) of real LiftContext::convert results, with a per-opcode probing sweep",
+    design="5 C18"),
 }
 
 def main():
